@@ -4,3 +4,16 @@ deriving instance DecidableEq for Except
 namespace GoWebdav
 abbrev Bytes := List UInt8
 end GoWebdav
+
+namespace GoWebdav
+/-- element-wise relation between two lists (core Lean has no `List.Forall₂`) -/
+inductive Forall2 {α β} (R : α → β → Prop) : List α → List β → Prop
+  | nil : Forall2 R [] []
+  | cons {a b as bs} : R a b → Forall2 R as bs → Forall2 R (a :: as) (b :: bs)
+
+theorem Forall2.length_eq {α β} {R : α → β → Prop} {l₁ : List α} {l₂ : List β} (h : Forall2 R l₁ l₂) :
+    l₁.length = l₂.length := by
+  induction h with
+  | nil => rfl
+  | cons _ _ ih => simp [ih]
+end GoWebdav
